@@ -173,6 +173,35 @@ func (s *Store) CACheckAndSetConfig(idx, cidx uint64, config *structs.CAConfigur
 	return err == nil, err
 }
 
+// CARootSetCASAndCheckAndSetConfig replaces the CA roots and the CA
+// configuration in a single transaction: either both conditional writes are
+// applied or neither is.
+func (s *Store) CARootSetCASAndCheckAndSetConfig(idx, rootsCidx uint64, rs []*structs.CARoot, configCidx uint64, config *structs.CAConfiguration) (bool, error) {
+	tx := s.db.WriteTxn(idx)
+	defer tx.Abort()
+
+	applied, err := caRootSetCASAppliedTxn(tx, idx, rootsCidx, rs)
+	if err != nil || !applied {
+		return false, err
+	}
+
+	existing, err := tx.First(tableConnectCAConfig, "id")
+	if err != nil {
+		return false, fmt.Errorf("failed CA config lookup: %s", err)
+	}
+	e, ok := existing.(*structs.CAConfiguration)
+	if (ok && e.ModifyIndex != configCidx) || (!ok && configCidx != 0) {
+		return false, errors.Errorf("ModifyIndex did not match existing")
+	}
+
+	if err := s.caSetConfigTxn(idx, tx, config); err != nil {
+		return false, err
+	}
+
+	err = tx.Commit()
+	return err == nil, err
+}
+
 func (s *Store) caSetConfigTxn(idx uint64, tx WriteTxn, config *structs.CAConfiguration) error {
 	// Check for an existing config
 	prev, err := tx.First(tableConnectCAConfig, "id")
